@@ -11,11 +11,11 @@ import (
 // map-order schedule, the wall clock (when --today is given), the way the
 // files are delivered.
 type CaseC05 struct {
-	Base     CLIBase     `json:"base"`
-	Today    string      `json:"today,omitempty"`
-	Begin    string      `json:"begin,omitempty"`
-	End      string      `json:"end,omitempty"`
-	MaxDepth int         `json:"maxdepth,omitempty"`
+	Base     CLIBase      `json:"base"`
+	Today    string       `json:"today,omitempty"`
+	Begin    string       `json:"begin,omitempty"`
+	End      string       `json:"end,omitempty"`
+	MaxDepth int          `json:"maxdepth,omitempty"`
 	Variants []VariantC05 `json:"variants"`
 }
 
@@ -31,8 +31,8 @@ func genC05(thorough bool) func(t *rapid.T) Case {
 	names := shapeNames(nil)
 	return func(t *rapid.T) Case {
 		c := &CaseC05{}
-		bo := BookOpts{MaxRecipes: 8, Cycles: rapid.IntRange(0, 9).Draw(t, "cycles") == 0}
-		if rapid.IntRange(0, 4).Draw(t, "deep") == 0 {
+		bo := BookOpts{MaxRecipes: 8, Cycles: rapid.IntRange(0, 9).Draw(t, "cycles") == 9}
+		if rapid.IntRange(0, 4).Draw(t, "deep") == 4 {
 			bo.DeepChain = rapid.IntRange(2, 12).Draw(t, "deep_chain")
 			bo.MaxRecipes = 14
 		}
@@ -41,11 +41,9 @@ func genC05(thorough bool) func(t *rapid.T) Case {
 			c.Today = baseDay.AddDate(0, 0, rapid.IntRange(0, 12).Draw(t, "today_off")).Format(defaultDateLayout)
 		}
 		kw := []string{"", "", "today", "yesterday", "last7", "last30", "2021/01/22", "2021/01/25"}
-		if c.Today != "" || true {
-			c.Begin = rapid.SampledFrom(kw).Draw(t, "begin")
-			c.End = rapid.SampledFrom(kw).Draw(t, "end")
-		}
-		if rapid.IntRange(0, 3).Draw(t, "set_maxdepth") == 0 {
+		c.Begin = rapid.SampledFrom(kw).Draw(t, "begin")
+		c.End = rapid.SampledFrom(kw).Draw(t, "end")
+		if rapid.IntRange(0, 3).Draw(t, "set_maxdepth") == 3 {
 			c.MaxDepth = rapid.IntRange(1, 12).Draw(t, "maxdepth")
 		}
 		nv := rapid.IntRange(1, 4).Draw(t, "n_variants")
@@ -58,7 +56,7 @@ func genC05(thorough bool) func(t *rapid.T) Case {
 			if c.Today != "" && rapid.Bool().Draw(t, fmt.Sprintf("v%d_clock", i)) {
 				v.ClockShift = rapid.Int64Range(-400*24*3600e9, 400*24*3600e9).Draw(t, fmt.Sprintf("v%d_shift", i))
 			}
-			if rapid.IntRange(0, 3).Draw(t, fmt.Sprintf("v%d_chunked", i)) == 0 {
+			if rapid.IntRange(0, 3).Draw(t, fmt.Sprintf("v%d_chunked", i)) == 3 {
 				v.Chunk = rapid.SampledFrom([]string{"one", "seeded"}).Draw(t, fmt.Sprintf("v%d_chunk", i))
 				v.ChunkSeed = rapid.Uint64().Draw(t, fmt.Sprintf("v%d_chunkseed", i))
 			}
